@@ -3,22 +3,25 @@
 (* both wallets, a spend chain, a two-input consolidation whose two outputs   *)
 (* go to two addresses of one wallet, a conflicting                          *)
 (* pair (double spend of a wallet coin) and a payment in the other direction.*)
+(* p5 spends a coin of EACH wallet in one transaction.                        *)
 EXTENDS Gen
 S(o, a, c, v, l) == [owner |-> o, addr |-> a, class |-> c, amt |-> v, lock |-> l]
-MC_TxIds   == {"p1", "p1x", "p2", "p3", "p4"}
+MC_TxIds   == {"p1", "p1x", "p2", "p3", "p4", "p5"}
 MC_TxIns   == [t \in MC_TxIds |->
                  CASE t = "p1"  -> {<<"c1", 1>>}
                    [] t = "p1x" -> {<<"c1", 1>>}
                    [] t = "p2"  -> {<<"p1", 1>>}
                    [] t = "p3"  -> {<<"p1", 2>>, <<"c3", 1>>}
-                   [] t = "p4"  -> {<<"c2", 1>>}]
+                   [] t = "p4"  -> {<<"c2", 1>>}
+                   [] t = "p5"  -> {<<"c2", 1>>, <<"c3", 1>>}]
 MC_TxOuts  == [t \in MC_TxIds |->
                  CASE t = "p1"  -> <<S("w2", 0, "std", 20, 0), S("w1", 1, "std", 29, 0)>>
                    [] t = "p1x" -> <<S("S", 0, "std", 49, 0)>>
                    [] t = "p2"  -> <<S("S", 0, "std", 5, 0), S("w2", 1, "std", 14, 0)>>
                    [] t = "p3"  -> <<S("w1", 0, "std", 60, 0), S("w1", 1, "std", 38, 0)>>
-                   [] t = "p4"  -> <<S("w1", 0, "std", 31, 0), S("w2", 0, "std", 28, 0)>>]
-MC_TxOrder == <<"p1", "p1x", "p4", "p2", "p3">>
+                   [] t = "p4"  -> <<S("w1", 0, "std", 31, 0), S("w2", 0, "std", 28, 0)>>
+                   [] t = "p5"  -> <<S("S", 0, "std", 100, 0), S("w2", 1, "std", 27, 0)>>]
+MC_TxOrder == <<"p1", "p1x", "p4", "p5", "p2", "p3">>
 MC_CbId    == <<"c1", "c2", "c3", "c4", "c5", "c6", "c7", "c8", "c9", "c10", "c11", "c12">>
 MC_CbOut   == <<S("w1", 0, "cb", 50, 0), S("w2", 0, "cb", 60, 0), S("w1", 1, "cb", 70, 0),
                 S("S", 0, "cb", 1, 0),   S("w2", 1, "cb", 80, 0), S("S", 0, "cb", 1, 0),
